@@ -140,7 +140,7 @@ def run(r) -> None:
     r.bind_model()
     quick = r.tier == "quick"
     cases = []
-    ns = {"forcing": [True, False], "stream": [True, False], "width": [2, 0, 1, 3], "dtype": ["float64", "float32"], "params": [[1e-2, 1e-1, 1.7], [3e-3, 2e-2, 2.5]]}
+    ns = {"forcing": [True, False], "stream": [True, False], "stream_kind": simcfg.STREAM_KINDS, "width": [2, 0, 1, 3], "dtype": ["float64", "float32"], "params": [[1e-2, 1e-1, 1.7], [3e-3, 2e-2, 2.5]]}
     kinds = {
         "ns2d": ns,
         "ns3d": {**ns, "filter": [None, ["multiplicative", 2], ["convolution", 1], ["convolution", 3], ["multiplicative", 1]], "poisson": ["greens", "fastdiag"]},
